@@ -5,6 +5,7 @@ import (
 	"fmt"
 	"os"
 	"path/filepath"
+	"regexp"
 	"runtime/debug"
 	"sort"
 	"strings"
@@ -40,7 +41,7 @@ func TestMain(m *testing.M) { fw.Main(m) }
 // With the flag cleared the check reports it as from_subquery_poisons_fileinfo.
 const avoidFromSubqueryPoisonsFileInfo = false
 
-const fromSubqueryMark = ") s"
+const fromSubqueryMark = ") fsq"
 
 // kMark stands in the generated SQL for the id of the row at which the evaluation fails.
 const kMark = "{K}"
@@ -65,21 +66,22 @@ type stmtT struct {
 }
 
 type failT struct {
-	SK     string   `json:"sk"`               // statement kind
-	FK     string   `json:"fk"`               // failure kind
-	SQL    string   `json:"sql"`              //
-	Target string   `json:"target,omitempty"` // table the statement would change ("" for CREATE TABLE)
-	Refs   []string `json:"refs"`             // tables the statement mentions
-	Drive  string   `json:"drive,omitempty"`  // table whose rows are evaluated one by one
-	Common string   `json:"common,omitempty"` // the evaluated rows are those of Drive whose id also exists in this table
-	K      int      `json:"k,omitempty"`      // id of the row at which the evaluation fails (0: not bound to a row)
-	J      int      `json:"j,omitempty"`      // index of the failing row value of a VALUES list
-	M      int      `json:"m,omitempty"`      // number of row values
-	Part   bool     `json:"part,omitempty"`   // not bound to a row, but fails after other items of the statement were evaluated
-	Ns     []int    `json:"ns,omitempty"`     // cancellation: numbers of context polls that pass before the context is cancelled
-	Errno  int      `json:"errno,omitempty"`  // error number the engineered failure has in lib/query/error_code.go
-	Pre    []stmtT  `json:"pre,omitempty"`    // statements run after the prefix: variables / cursors holding values read from the tables
-	Shared int      `json:"shared,omitempty"` // number of values of the statement that are read from table cells (subquery, variable, cursor)
+	SK      string   `json:"sk"`                // statement kind
+	FK      string   `json:"fk"`                // failure kind
+	SQL     string   `json:"sql"`               //
+	Target  string   `json:"target,omitempty"`  // table the statement would change ("" for CREATE TABLE)
+	Refs    []string `json:"refs"`              // tables the statement mentions
+	Drive   string   `json:"drive,omitempty"`   // table whose rows are evaluated one by one
+	Common  string   `json:"common,omitempty"`  // the evaluated rows are those of Drive whose id also exists in this table
+	K       int      `json:"k,omitempty"`       // id of the row at which the evaluation fails (0: not bound to a row)
+	J       int      `json:"j,omitempty"`       // index of the failing row value of a VALUES list
+	M       int      `json:"m,omitempty"`       // number of row values
+	Part    bool     `json:"part,omitempty"`    // not bound to a row, but fails after other items of the statement were evaluated
+	Ns      []int    `json:"ns,omitempty"`      // cancellation: numbers of context polls that pass before the context is cancelled
+	Errno   int      `json:"errno,omitempty"`   // error number the engineered failure has in lib/query/error_code.go
+	Pre     []stmtT  `json:"pre,omitempty"`     // statements run after the prefix: variables / cursors holding values read from the tables
+	Aliased bool     `json:"aliased,omitempty"` // tables are named through aliases where the statement shape has a FROM clause
+	Shared  int      `json:"shared,omitempty"`  // number of values of the statement that are read from table cells (subquery, variable, cursor)
 }
 
 type caseT struct {
@@ -288,9 +290,12 @@ func pickRow(t *rapid.T, ids []int) int {
 func fileOf(g *gTbl) string { return g.Name + ".csv" }
 
 // source renders a table as a FROM item of a sub-select.
-func source(t *rapid.T, g *gTbl) string {
+func source(t *rapid.T, g *gTbl, aliased bool) string {
 	if !avoidFromSubqueryPoisonsFileInfo && fw.Pct(t, "from_subquery", 30) {
 		return fmt.Sprintf("(SELECT * FROM %s%s", g.Name, fromSubqueryMark)
+	}
+	if aliased {
+		return g.Name + " x"
 	}
 	return g.Name
 }
@@ -305,6 +310,8 @@ const (
 	errKeyNotSet     = 13901
 	errTableLength   = 11401
 	errFileExists    = 90182
+	errNotLoaded     = 11602
+	errInlineTable   = 11604
 )
 
 var failKinds = []struct {
@@ -319,6 +326,8 @@ var failKinds = []struct {
 	{"delete_div0", 7},
 	{"delete_multi_div0", 3},
 	{"delete_unknown", 2},
+	{"delete_multi_bad_target", 9},
+	{"update_multi_bad_target", 5},
 	{"insert_values", 8},
 	{"insert_values_unknown", 2},
 	{"insert_select_div0", 7},
@@ -432,7 +441,16 @@ func genFail(t *rapid.T, T, B *gTbl, enum bool) failT {
 		return both
 	}
 
-	f := failT{Target: T.Name, Refs: one}
+	// how the statement names the tables: 60% of the cases give them aliases that differ from the table names
+	// (a statement resolves field references through the view name of the header, which it sets to the alias)
+	aliased := fw.Pct(t, "aliased", 60)
+	ta, tb, fromT, fromB := T.Name, B.Name, T.Name, B.Name
+	if aliased {
+		ta, tb, fromT, fromB = "a", "b", T.Name+" a", B.Name+" b"
+	}
+	smallJoin := len(T.ids)*len(B.ids) <= 20000
+
+	f := failT{Target: T.Name, Refs: one, Aliased: aliased}
 	sh := &sharer{t: t, tbls: []*gTbl{T, B}, refs: map[string]bool{T.Name: true}}
 	switch kind {
 	case "update_set_div0":
@@ -477,7 +495,7 @@ func genFail(t *rapid.T, T, B *gTbl, enum bool) failT {
 		f.SK, f.FK, f.Drive, f.K, f.Errno, f.Refs = "update_multi", "ambiguous", T.Name, k, errAmbiguous, both
 		// the SET value: mostly a DIRECT field reference of the other table (Evaluate then returns the very
 		// object the cached source view holds) of a string, integer or float column; sometimes an expression
-		set := fmt.Sprintf("%s.v = 'F' || %s.v", T.Name, B.Name)
+		set := fmt.Sprintf("%s.v = 'F' || %s.v", ta, tb)
 		if fw.Pct(t, "amb_direct", 75) {
 			dst := fw.PickU(t, "amb_dst", []string{"v", "v", "w"})
 			src := fw.PickU(t, "amb_src", []string{"v", "v", "w", "id", "fl", "fl"})
@@ -485,32 +503,73 @@ func genFail(t *rapid.T, T, B *gTbl, enum bool) failT {
 				// a float-typed column (also in a file table: the added cells are typed until COMMIT)
 				f.Pre = append(f.Pre, stmtT{Kind: "add_float", SQL: fmt.Sprintf("ALTER TABLE %s ADD fl DEFAULT id * 0.5;", B.Name), Refs: []string{B.Name}})
 			}
-			set = fmt.Sprintf("%s.%s = %s.%s", T.Name, dst, B.Name, src)
+			set = fmt.Sprintf("%s.%s = %s.%s", ta, dst, tb, src)
 			if fw.Pct(t, "amb_two", 35) {
 				other := map[string]string{"v": "w", "w": "v"}[dst]
-				set += fmt.Sprintf(", %s.%s = %s.%s", T.Name, other, B.Name, fw.PickU(t, "amb_src2", []string{"v", "w", "id"}))
+				set += fmt.Sprintf(", %s.%s = %s.%s", ta, other, tb, fw.PickU(t, "amb_src2", []string{"v", "w", "id"}))
 			}
 			f.Shared = 1
 		}
 		f.SQL = fmt.Sprintf("UPDATE %s SET %s FROM %s CROSS JOIN %s WHERE %s.id = %d OR (%s.id = {K} AND %s.id = %d);",
-			T.Name, set, T.Name, B.Name, B.Name, a, T.Name, B.Name, b)
+			ta, set, fromT, fromB, tb, a, ta, tb, b)
 	case "update_multi_div0":
 		k := pickRow(t, common)
 		f.SK, f.FK, f.Drive, f.Common, f.K, f.Errno, f.Refs = "update_multi", "div0", T.Name, B.Name, k, errDiv0, both
 		f.SQL = fmt.Sprintf("UPDATE %s, %s SET %s.v = 'F', %s.v = 'G', %s.w = 1 / (%s.id - {K}) FROM %s JOIN %s ON %s.id = %s.id;",
-			T.Name, B.Name, T.Name, B.Name, B.Name, T.Name, T.Name, B.Name, T.Name, B.Name)
+			ta, tb, ta, tb, tb, ta, fromT, fromB, ta, tb)
 	case "delete_div0":
 		k := pickRow(t, T.ids)
 		f.SK, f.FK, f.Drive, f.K, f.Errno = "delete", "div0_where", T.Name, k, errDiv0
-		f.SQL = fmt.Sprintf("DELETE FROM %s WHERE 1 / (id - {K}) IS NOT NULL;", T.Name)
+		f.SQL = fmt.Sprintf("DELETE FROM %s WHERE 1 / (%s.id - {K}) IS NOT NULL;", fromT, ta)
 	case "delete_multi_div0":
 		k := pickRow(t, common)
 		f.SK, f.FK, f.Drive, f.Common, f.K, f.Errno, f.Refs = "delete_multi", "div0_where", T.Name, B.Name, k, errDiv0, both
 		f.SQL = fmt.Sprintf("DELETE %s, %s FROM %s JOIN %s ON %s.id = %s.id WHERE 1 / (%s.id - {K}) IS NOT NULL;",
-			T.Name, B.Name, T.Name, B.Name, T.Name, B.Name, B.Name)
+			ta, tb, fromT, fromB, ta, tb, tb)
 	case "delete_unknown":
 		f.SK, f.FK, f.Errno = "delete", "unknown_field", errFieldNotExist
-		f.SQL = fmt.Sprintf("DELETE FROM %s WHERE nosuch = 1;", T.Name)
+		f.SQL = fmt.Sprintf("DELETE FROM %s WHERE nosuch = 1;", fromT)
+	case "delete_multi_bad_target", "update_multi_bad_target":
+		// a table name after DELETE / UPDATE that is not an updatable table of the statement: the names are
+		// resolved one after the other, after the FROM clause was loaded (and given its aliases)
+		f.SK, f.FK, f.Refs = strings.TrimSuffix(kind, "_bad_target"), "bad_target", both
+		from := fmt.Sprintf("%s JOIN %s ON %s.id = %s.id", fromT, fromB, ta, tb)
+		if !smallJoin {
+			from = fromT
+			f.Refs = one
+		}
+		bad, with := "nosuch", ""
+		f.Errno = errNotLoaded
+		switch fw.Range(t, "bad_how", 0, 3) {
+		case 1:
+			// the alias of a subquery
+			bad, f.Errno, f.Refs = "s", errInlineTable, both
+			from = fmt.Sprintf("%s JOIN (SELECT id FROM %s) s ON %s.id = s.id", fromT, B.Name, ta)
+			if !smallJoin {
+				from = fmt.Sprintf("%s JOIN (SELECT id FROM %s LIMIT 3) s ON %s.id = s.id", fromT, B.Name, ta)
+			}
+		case 2:
+			// an inline table of the WITH clause
+			bad, f.Errno = "c", errInlineTable
+			with = "WITH c AS (SELECT 1 AS id) "
+			from = fmt.Sprintf("%s JOIN c ON %s.id = c.id", fromT, ta)
+			f.Refs = one
+		}
+		targets := ta + ", " + bad
+		f.Part = true
+		switch fw.Range(t, "bad_where", 0, 3) {
+		case 0:
+			targets, f.Part = bad+", "+ta, false
+		case 1:
+			if strings.Contains(from, fromB+" ON") {
+				targets = ta + ", " + tb + ", " + bad
+			}
+		}
+		if kind == "delete_multi_bad_target" {
+			f.SQL = fmt.Sprintf("%sDELETE %s FROM %s;", with, targets, from)
+		} else {
+			f.SQL = fmt.Sprintf("%sUPDATE %s SET %s.v = 'F' FROM %s;", with, targets, ta, from)
+		}
 	case "insert_values", "replace_values":
 		m := fw.Range(t, "values_rows", 1, 6)
 		j := m - 1
@@ -585,14 +644,14 @@ func genFail(t *rapid.T, T, B *gTbl, enum bool) failT {
 	case "insert_select_div0":
 		k := pickRow(t, S.ids)
 		f.SK, f.FK, f.Drive, f.K, f.Errno, f.Refs = "insert_select", "div0", S.Name, k, errDiv0, srcRefs()
-		f.SQL = fmt.Sprintf("INSERT INTO %s (id, v, w) SELECT id + 5000, 'F', 1 / (id - {K}) FROM %s;", T.Name, source(t, S))
+		f.SQL = fmt.Sprintf("INSERT INTO %s (id, v, w) SELECT id + 5000, 'F', 1 / (id - {K}) FROM %s;", T.Name, source(t, S, aliased))
 	case "insert_select_length":
 		f.SK, f.FK, f.Errno, f.Refs, f.Part = "insert_select", "field_length", errSelectLength, srcRefs(), true
-		f.SQL = fmt.Sprintf("INSERT INTO %s (id, v) SELECT id + 5000, 'F', w FROM %s;", T.Name, source(t, S))
+		f.SQL = fmt.Sprintf("INSERT INTO %s (id, v) SELECT id + 5000, 'F', w FROM %s;", T.Name, source(t, S, aliased))
 	case "replace_select_div0":
 		k := pickRow(t, S.ids)
 		f.SK, f.FK, f.Drive, f.K, f.Errno, f.Refs = "replace_select", "div0", S.Name, k, errDiv0, srcRefs()
-		f.SQL = fmt.Sprintf("REPLACE INTO %s (id, v, w) USING (id) SELECT id, 'F', 1 / (id - {K}) FROM %s;", T.Name, source(t, S))
+		f.SQL = fmt.Sprintf("REPLACE INTO %s (id, v, w) USING (id) SELECT id, 'F', 1 / (id - {K}) FROM %s;", T.Name, source(t, S, aliased))
 	case "replace_key":
 		f.SK, f.FK, f.Errno, f.Part = "replace_values", "key_not_set", errKeyNotSet, true
 		f.SQL = fmt.Sprintf("REPLACE INTO %s (v, w) USING (id) VALUES ('F', 1), ('G', 2);", T.Name)
@@ -633,13 +692,13 @@ func genFail(t *rapid.T, T, B *gTbl, enum bool) failT {
 		if fw.Pct(t, "create_cols", 40) {
 			cols = " (a, b, c)"
 		}
-		f.SQL = fmt.Sprintf("CREATE TABLE `%s`%s AS SELECT id, v, 1 / (id - {K}) AS q FROM %s;", newFile, cols, source(t, S))
+		f.SQL = fmt.Sprintf("CREATE TABLE `%s`%s AS SELECT id, v, 1 / (id - {K}) AS q FROM %s;", newFile, cols, source(t, S, aliased))
 	case "create_bad":
 		f.Target, f.Refs = "", nil
 		switch fw.Range(t, "shape", 0, 2) {
 		case 0:
 			f.SK, f.FK, f.Errno, f.Refs, f.Part = "create_as", "field_length", errTableLength, []string{S.Name}, true
-			f.SQL = fmt.Sprintf("CREATE TABLE `%s` (a, b) AS SELECT id, v, w FROM %s;", newFile, source(t, S))
+			f.SQL = fmt.Sprintf("CREATE TABLE `%s` (a, b) AS SELECT id, v, w FROM %s;", newFile, source(t, S, aliased))
 		case 1:
 			f.SK, f.FK, f.Errno = "create", "duplicate_column", errDuplicate
 			f.SQL = fmt.Sprintf("CREATE TABLE `%s` (a, b, a);", newFile)
@@ -668,13 +727,13 @@ func genFail(t *rapid.T, T, B *gTbl, enum bool) failT {
 		case 1:
 			f.SK, f.SQL = "update", fmt.Sprintf("UPDATE %s SET v = 'F', w = id * 3 WHERE id %% 3 <> 1;", T.Name)
 		case 2:
-			f.SK, f.SQL = "delete", fmt.Sprintf("DELETE FROM %s WHERE id %% 2 = 0;", T.Name)
+			f.SK, f.SQL = "delete", fmt.Sprintf("DELETE FROM %s WHERE %s.id %% 2 = 0;", fromT, ta)
 		case 3:
 			f.SK, f.Refs = "insert_select", srcRefs()
-			f.SQL = fmt.Sprintf("INSERT INTO %s (id, v, w) SELECT id + 5000, 'F', w FROM %s;", T.Name, S.Name)
+			f.SQL = fmt.Sprintf("INSERT INTO %s (id, v, w) SELECT id + 5000, 'F', w FROM %s;", T.Name, source(t, S, aliased))
 		case 4:
 			f.SK, f.Refs = "replace_select", srcRefs()
-			f.SQL = fmt.Sprintf("REPLACE INTO %s (id, v) USING (id) SELECT id, 'F' FROM %s;", T.Name, S.Name)
+			f.SQL = fmt.Sprintf("REPLACE INTO %s (id, v) USING (id) SELECT id, 'F' FROM %s;", T.Name, source(t, S, aliased))
 		case 5:
 			f.SK, f.SQL = "alter_add", fmt.Sprintf("ALTER TABLE %s ADD c9 DEFAULT id * 2 AFTER id;", T.Name)
 		case 6:
@@ -686,7 +745,7 @@ func genFail(t *rapid.T, T, B *gTbl, enum bool) failT {
 			if len(common) > 0 && len(T.ids)*len(B.ids) <= 20000 {
 				f.SK, f.Refs = "update_multi", both
 				f.SQL = fmt.Sprintf("UPDATE %s, %s SET %s.v = 'F', %s.v = 'G' FROM %s JOIN %s ON %s.id = %s.id;",
-					T.Name, B.Name, T.Name, B.Name, T.Name, B.Name, T.Name, B.Name)
+					ta, tb, ta, tb, fromT, fromB, ta, tb)
 			} else {
 				f.SK, f.SQL = "update", fmt.Sprintf("UPDATE %s SET v = 'F' WHERE id > 0;", T.Name)
 			}
@@ -757,7 +816,7 @@ func genCaseOf(t *rapid.T, enum bool) caseT {
 	if enum {
 		c.F.Ns = nil
 	}
-	c.Ending = []string{"commit", "follow_commit", "rollback"}[fw.Weighted(t, "ending", []int{40, 45, 15})]
+	c.Ending = []string{"commit", "follow_commit", "rollback"}[fw.Weighted(t, "ending", []int{28, 57, 15})]
 	return c
 }
 
@@ -1233,6 +1292,9 @@ func checkOnce(c caseT, limit time.Duration) (fw.Outcome, *fw.Violation) {
 	class("table:" + tkind)
 	class("state:" + state)
 	class("ending:" + c.Ending)
+	if f.Aliased {
+		class("aliased")
+	}
 	class("size:" + sizeClass(len(before[mainTbl].Rows)))
 
 	// the rows the statement evaluates one by one, in order (ids)
@@ -1322,6 +1384,24 @@ func checkOnce(c caseT, limit time.Duration) (fw.Outcome, *fw.Violation) {
 					role = "target"
 				}
 				return fw.V(fmt.Sprintf("%s_changed_%s_%s_table", sigBase, role, t.Kind), "%s: %s (%s table, %d rows) is not what it was before the statement: %s%s", what, t.Name, t.Kind, len(w.Rows), d, e.tail())
+			}
+			// the columns still belong to the table under its own name: table-qualified references resolve
+			if len(w.Cols) > 0 {
+				var qs []string
+				for _, cn := range w.Cols {
+					qs = append(qs, t.Name+"."+cn)
+				}
+				st := fmt.Sprintf("SELECT %s FROM %s;", strings.Join(qs, ", "), t.Name)
+				r := e.exec(st)
+				if r.Err != nil {
+					return fw.V(fmt.Sprintf("%s_then_qualified_select_fails_%s_table", sigBase, t.Kind), "%s: %s fails: %v (SELECT * FROM %s works)%s", what, st, r.Err, t.Name, e.tail())
+				}
+				if len(r.Views) != 1 {
+					return fw.Harness("%s gave %d results", st, len(r.Views))
+				}
+				if d := diffSnap(w, snapOf(r.Views[0])); d != "" {
+					return fw.V(fmt.Sprintf("%s_qualified_select_differs_%s_table", sigBase, t.Kind), "%s: %s is not the table as it was before the statement: %s%s", what, st, d, e.tail())
+				}
 			}
 		}
 		return nil
@@ -1528,7 +1608,75 @@ func checkOnce(c caseT, limit time.Duration) (fw.Outcome, *fw.Violation) {
 		}
 		w.Rows = append(append([][]string(nil), w.Rows...), row)
 		want[ft] = w
-		if v := compare("after the failed statement and "+st, want); v != nil {
+		// UPDATE and DELETE of single rows of BOTH tables, plain and table-qualified, with the documented
+		// effect and number of affected records
+		for ti, t := range c.Tables {
+			w := want[t.Name]
+			idc, vc := -1, -1
+			for i, cn := range w.Cols {
+				switch cn {
+				case "id":
+					idc = i
+				case "v":
+					vc = i
+				}
+			}
+			if idc < 0 || vc < 0 || len(w.Rows) == 0 {
+				continue
+			}
+			q1, q2 := t.Name+".", ""
+			if ti == 1 {
+				q1, q2 = "", t.Name+"."
+			}
+			x, y := w.Rows[0][idc], w.Rows[len(w.Rows)-1][idc]
+			if !intText.MatchString(x) || !intText.MatchString(y) {
+				fw.AddExtra("follow_up_skipped:id_not_integer", 1)
+				continue
+			}
+			rows := make([][]string, 0, len(w.Rows))
+			n := 0
+			for _, r := range w.Rows {
+				r = append([]string(nil), r...)
+				if r[idc] == x {
+					r[vc] = "upd"
+					n++
+				}
+				rows = append(rows, r)
+			}
+			st := fmt.Sprintf("UPDATE %s SET %sv = 'upd' WHERE %sid = %s;", t.Name, q1, q1, x)
+			r := e.exec(st)
+			if r.Err != nil {
+				return o, fw.V(sigBase+"_then_valid_update_fails", "%s after the failed statement: %v%s", st, r.Err, e.tail())
+			}
+			if r.Affected != n {
+				return o, fw.V(sigBase+"_then_update_affects_wrong_count", "%s after the failed statement updated %d records, the table holds %d with that id%s", st, r.Affected, n, e.tail())
+			}
+			class("follow_up:update")
+			if y != x {
+				var kept [][]string
+				n = 0
+				for _, r := range rows {
+					if r[idc] == y {
+						n++
+					} else {
+						kept = append(kept, r)
+					}
+				}
+				rows = kept
+				st = fmt.Sprintf("DELETE FROM %s WHERE %sid = %s;", t.Name, q2, y)
+				r = e.exec(st)
+				if r.Err != nil {
+					return o, fw.V(sigBase+"_then_valid_delete_fails", "%s after the failed statement: %v%s", st, r.Err, e.tail())
+				}
+				if r.Affected != n {
+					return o, fw.V(sigBase+"_then_delete_affects_wrong_count", "%s after the failed statement deleted %d records, the table holds %d with that id%s", st, r.Affected, n, e.tail())
+				}
+				class("follow_up:delete")
+			}
+			w.Rows = rows
+			want[t.Name] = w
+		}
+		if v := compare("after the failed statement, "+st+" and an UPDATE and a DELETE on both tables", want); v != nil {
 			v.Sig += "_after_follow_up"
 			return o, v
 		}
@@ -1579,8 +1727,50 @@ func checkOnce(c caseT, limit time.Duration) (fw.Outcome, *fw.Violation) {
 			}
 			return o, fw.V(fmt.Sprintf("%s_committed_%s_%s_table", sigBase, role, t.Kind), "%s.csv as written by COMMIT is not the table as it was before the failed statement: %s%s", t.Name, d, e.tail())
 		}
+		// the bytes: header line and one line per record; every cell here is NULL (empty) or a word
+		// that needs no quoting, so the CSV text is determined
+		if wantBytes, ok := csvBytes(want[t.Name]); ok {
+			if got := now[t.Name+".csv"]; got != wantBytes {
+				return o, fw.V(fmt.Sprintf("%s_committed_bytes_%s_table", sigBase, t.Kind), "%s.csv after the failed statement and COMMIT holds %q, expected %q%s", t.Name, clipS(got), clipS(wantBytes), e.tail())
+			}
+			class("committed_bytes_checked")
+		} else {
+			fw.AddExtra("bytes_not_checked:cell_needs_quoting", 1)
+		}
 	}
 	return o, nil
+}
+
+var intText = regexp.MustCompile(`^-?[0-9]+$`)
+var plainWord = regexp.MustCompile(`^[A-Za-z0-9_.~!-]+$`)
+
+// csvBytes renders a table whose cells are NULL or plain words.
+func csvBytes(sn snapT) (string, bool) {
+	var b strings.Builder
+	b.WriteString(strings.Join(sn.Cols, ",") + "\n")
+	for _, r := range sn.Rows {
+		for i, c := range r {
+			if i > 0 {
+				b.WriteByte(',')
+			}
+			if c == nullCell {
+				continue
+			}
+			if !plainWord.MatchString(c) {
+				return "", false
+			}
+			b.WriteString(c)
+		}
+		b.WriteByte('\n')
+	}
+	return b.String(), true
+}
+
+func clipS(s string) string {
+	if len(s) > 400 {
+		return s[:400] + "..."
+	}
+	return s
 }
 
 func TestC08EnumerateFailurePoints(t *testing.T) {
@@ -1607,9 +1797,10 @@ func TestC08FailedStatement(t *testing.T) {
 	fw.Run(t, fw.Spec[caseT]{
 		ID: "C08", Name: "failed_statement", Quick: 5000, Thorough: 100000,
 		Gen: genCase, Check: checkCase,
-		Rule: "two tables t1/t2 (CSV file, temporary table or table created in the same transaction; 1-340 rows, ~25% of the cases with >=160 rows and cpu 2/4 so that worker goroutines evaluate), a prefix of 0-4 successful INSERT/UPDATE/DELETE/REPLACE/ALTER statements, then ONE statement engineered to fail: UPDATE/DELETE/INSERT..SELECT/REPLACE..SELECT/ALTER ADD DEFAULT/CREATE TABLE AS dividing by (id-K) with K the first/middle/last id, multi-table UPDATE that becomes ambiguous at row K, VALUES lists whose j-th row has the wrong length or fails, unknown fields, missing/duplicate columns, REPLACE key not set, CREATE TABLE over an existing file, or a valid statement whose context is cancelled after N polls (several N per case). Executed statement by statement on one in-process session; oracle: SELECT * of both tables and the plain files of the directory are the same before and after, then COMMIT (optionally after a further valid INSERT) and a fresh session reads the same content from the files, or ROLLBACK returns to the initial content. Non-trivial = the failure strikes after >=1 row / row value / statement item was evaluated (K not first, j>0, N>1); distinct by (statement kind, failure kind, position class, table kind, size class, clean/dirty/cold)",
+		Rule: "two tables t1/t2 (CSV file, temporary table or table created in the same transaction; 1-340 rows, ~25% of the cases with >=160 rows and cpu 2/4 so that worker goroutines evaluate), a prefix of 0-4 successful INSERT/UPDATE/DELETE/REPLACE/ALTER statements, then ONE statement engineered to fail: UPDATE/DELETE/INSERT..SELECT/REPLACE..SELECT/ALTER ADD DEFAULT/CREATE TABLE AS dividing by (id-K) with K the first/middle/last id, multi-table UPDATE that becomes ambiguous at row K, VALUES lists whose j-th row has the wrong length or fails, unknown fields, missing/duplicate columns, REPLACE key not set, CREATE TABLE over an existing file, a multi-table DELETE/UPDATE whose list of target names holds a name that is not an updatable table of the statement (unknown name, subquery alias, WITH table; before or after valid names), or a valid statement whose context is cancelled after N polls (several N per case). In 60% of the cases the statement names its tables through aliases (t1 a, t2 b, source x) that differ from the table names. Executed statement by statement on one in-process session; oracle: after data-neutral filler SELECTs, SELECT * AND the table-qualified SELECT t.c1, t.c2, ... of both tables and the plain files of the directory are the same before and after; then COMMIT - in 57% of the cases after a further INSERT and, on BOTH tables, an UPDATE and a DELETE of one row (plain and table-qualified names) whose affected counts and effects must match a row model - and a fresh session reads the modelled content from the files, whose bytes must be the modelled CSV text; or ROLLBACK returns to the initial content. Non-trivial = the failure strikes after >=1 row / row value / statement item was evaluated (K not first, j>0, N>1); distinct by (statement kind, failure kind, position class, table kind, size class, clean/dirty/cold)",
 		Assumptions: []string{
 			"tables are compared by column names, row order, cell text and NULL-ness (not by value type: a CSV round trip turns every value into text)",
+			"follow-up statements address single rows by id (ids are unique integers); the committed bytes are compared only when every cell is NULL or a word that needs no quoting (measured otherwise as bytes_not_checked:*)",
 			"lock and temp files of tables the failed statement loaded for update may appear: they belong to the open transaction, not to the statement's effects; litter after the transaction is C11's subject",
 			"the error must be returned, its class is not constrained: a statement that fails differently from the engineered failure is still checked but does not count as non-trivial (measured as other_error:*)",
 			"a cancelled statement that completes because it needs fewer polls than N ends the case (measured as cancel:completed_*), a case whose statement never fails is discarded (unexpected_success:*)",
